@@ -17,7 +17,8 @@ harness then still looks for a failing input on every wrapper stack.
 namespace Hive.Seq.Layered
 
 open Hive.Gen.C07SrcDebug in
-/-- `debugLayer true c L`: in every configuration `Get` and `Set` are forwarded; the callback only sees them. -/
+/-- `debugLayer true c L`: in every configuration `Get` and `Set` are forwarded; the callback only sees them.  (How `New`
+computes the filter is not pinned: the layer model holds for every filter.) -/
 theorem C07_source_store_debug :
     src_debugStore_Set =
       ["if s.accessCallback != nil && s.accessCallbackCommandsFilter.HasBits(SetCommand) {",   -- `c.hasCallback && c.reportsSet`
@@ -31,13 +32,9 @@ theorem C07_source_store_debug :
       ["storeWithRealm, err := s.underlying.WithRealm(realm)", "if err != nil {", "return nil, err", "}",
        "return &debugStore{ underlying: storeWithRealm, accessCallback: s.accessCallback, accessCallbackCommandsFilter: s.accessCallbackCommandsFilter, }, nil"] ∧
     src_debugStore_WithExtendedRealm = ["return s.WithRealm(byteutils.ConcatBytes(s.Realm(), realm))"] ∧
-    src_debugStore_Realm = ["return s.underlying.Realm()"] ∧
-    src_New =
-      ["var accessCallbackCommandsFilter Command",
-       "if len(commandsFilter) == 0 {", "accessCallbackCommandsFilter = AllCommands",          -- no filter: everything reported
-       "} else {", "for _, filterCommand := range commandsFilter {", "accessCallbackCommandsFilter |= filterCommand", "}", "}",
-       "return &debugStore{ underlying: store, accessCallback: callback, accessCallbackCommandsFilter: accessCallbackCommandsFilter, }"] := by
-  refine ⟨by decide, by decide, ?_, by decide, by decide, ?_⟩ <;> rfl
+    src_debugStore_Realm = ["return s.underlying.Realm()"] := by
+  refine ⟨by decide, by decide, ?_, by decide, by decide⟩
+  rfl
 
 open Hive.Gen.C07SrcFlush in
 /-- `flushWrap false L`: the error of the mutation is returned; only the `ErrStoreClosed` of the `Flush` after a mutation
